@@ -104,7 +104,14 @@ def joins(seed=0, tier="quick", **_):
             return probs
         results.append((name, explore(mk, check, 4, width=3, seed=seed, extra=10)))
         results.append((name + "/replies", explore(mk, check, 4, width=2, seed=seed, extra=5, mode="replies")))
-    return merge(results, "join")
+    # a nested Parallel that fails and is caught by its own Catch inside a healthy outer Parallel: the outer join must
+    # still hold every branch's own output (scenario shared with the C06 stand-in, known findings included)
+    from natives import c06
+    r = c06.failures(seed=seed, tier=tier, only="nested-inner-caught")
+    results.append(("nested-inner-caught", r))
+    out = merge(results, "join")
+    out["known"] = r.get("known", [])
+    return out
 
 
 def nested_machines():
